@@ -5,6 +5,7 @@ import sys as _sys
 import numpy as np
 
 from symx.run import Case
+from symx.paths import REPO_PKG
 from symx.number import SymBool, Sym, ctx, set_ctx, as_sym
 from .common import sp, conj, abs2
 from . import zoo
@@ -53,7 +54,10 @@ def case_pmtm(h, method, cplx, N, n):
     S = sp()
     x = h.vec('x', N, cplx)
     t, lam = tapers(h, N)
-    Sk, w, ev = S.pmtm(x, e=lam, v=t, NFFT=n, method=method, show=False)
+    t_in, lam_in = t.copy(), lam.copy()            # the arrays handed to the code; t, lam stay pristine for the oracle
+    Sk, w, ev = S.pmtm(x, e=lam_in, v=t_in, NFFT=n, method=method, show=False)
+    h.claim_true("caller's eigenvalue array not modified", bool(np.array_equal(lam_in, lam)))
+    h.claim_true("caller's taper array not modified", bool(np.array_equal(t_in, t)))
     Sk = np.asarray(Sk, dtype=object) if h.is_sym() else np.asarray(Sk)
     nw = len(lam)
     if tuple(Sk.shape) != (nw, n):
@@ -75,8 +79,18 @@ def case_class(h, method, cplx, N, n):
     S = sp()
     x = h.vec('x', N, cplx)
     t, lam = tapers(h, N)
-    p = S.MultiTapering(x, NFFT=n, e=lam, v=t, method=method, scale_by_freq=False)
+    t_in, lam_in = t.copy(), lam.copy()
+    p = S.MultiTapering(x, NFFT=n, e=lam_in, v=t_in, method=method, scale_by_freq=False)
     psd = p.psd
+    _ = p()                                           # a second evaluation of the same object must give the same estimate
+    psd2 = p.psd
+    if len(psd2) == len(psd):
+        for k in range(len(psd)):
+            h.claim_eq("second evaluation psd[%d]" % k, psd2[k], psd[k])
+    ev = p.eigenvalues
+    for i in range(len(lam)):
+        h.claim_eq("exposed eigenvalue[%d]" % i, ev[i], float(lam[i]))
+    h.claim_true("caller's eigenvalue array not modified", bool(np.array_equal(lam_in, lam)))
     L = zoo.expected_len(n, cplx)
     if len(psd) != L:
         h.fail("len", "len %d expected %d" % (len(psd), L))
@@ -99,7 +113,7 @@ def case_class(h, method, cplx, N, n):
 # ---------------------------------------------------------------------------
 def extract_adapt_body():
     """source of the body of the `while` loop of pmtm's adaptive branch, from the CURRENT file"""
-    fn = "/repo/src/spectrum/mtm.py"
+    fn = REPO_PKG + "/mtm.py"
     src = open(fn).read()
     tree = ast.parse(src)
     for node in ast.walk(tree):
@@ -115,7 +129,7 @@ def extract_adapt_body():
 
 def extract_assign(name):
     """the statement `name = ...` inside pmtm, from the CURRENT source"""
-    fn = "/repo/src/spectrum/mtm.py"
+    fn = REPO_PKG + "/mtm.py"
     tree = ast.parse(open(fn).read())
     for node in ast.walk(tree):
         if isinstance(node, ast.FunctionDef) and node.name == 'pmtm':
